@@ -44,11 +44,14 @@ func suite(quick bool) hlib.Suite {
 			if quick && R == 168*time.Hour {
 				continue
 			}
-			peaks := []time.Duration{0, R / 4, R / 2, 14 * R / 24, R - f}
+			// on a tick, and between ticks: a third, three quarters and exactly half of a tick further
+			peaks := []time.Duration{0, R / 4, R / 2, 14 * R / 24, R - f, (R / 4).Truncate(f) + f/3, (R / 2).Truncate(f) + 3*f/4, (14 * R / 24).Truncate(f) + f/2}
 			sigmas := []time.Duration{f, 3 * f, R / 10, R / 4, R, 10 * R, 100 * R, 1000 * R, 10000 * R}
 			for _, vol := range volumes {
 				for _, peak := range peaks {
-					peak = peak.Truncate(f) // a tick exists exactly at the peak
+					if peak%f == 0 || peak < f {
+						peak = peak.Truncate(f) // a tick exactly at the peak
+					}
 					for _, sigma := range sigmas {
 						if sigma < f {
 							continue
@@ -66,7 +69,7 @@ func suite(quick bool) hlib.Suite {
 				}
 			}
 		}
-		r.Sample(map[string]any{"volumes": volumes, "windows": fmt.Sprint(windows), "weights": fmt.Sprint(weights), "peaks": "0,R/4,R/2,14R/24,R-f", "sigmas": "f,3f,R/10,R/4,R,10R,100R,1000R,10000R"})
+		r.Sample(map[string]any{"volumes": volumes, "windows": fmt.Sprint(windows), "weights": fmt.Sprint(weights), "peaks": "0,R/4,R/2,14R/24,R-f and three between ticks (+f/3, +3f/4, +f/2)", "sigmas": "f,3f,R/10,R/4,R,10R,100R,1000R,10000R"})
 	}}
 }
 
@@ -129,8 +132,11 @@ func checkConfig(r *hlib.Rec, vol float64, R, f, peak, sigma time.Duration, w []
 				r.Fail("C11/carry", "fraction-lost-or-invented", fmt.Sprintf("window %d tick %d: %d requested so far, the real-valued rates sum to %.6f", win, k, cumE, cumS), input)
 				return
 			}
-			if time.Duration(k)*f == peak {
-				peakVal = v
+			// the tick(s) nearest the configured peak (two when the peak is exactly half-way)
+			if d := time.Duration(k)*f - peak; d > -f && d < f && (2*d <= f && 2*d >= -f) {
+				if v > peakVal {
+					peakVal = v
+				}
 			}
 			if v > maxVal {
 				maxVal = v
